@@ -407,6 +407,21 @@ func c08ops() map[string]zzcth.Op {
 			}
 			x, y, z := *a, *b, *pe
 			field.BatchInvert([]*field.Element{&x, &y, &z})
+			// the same predicates / encodings on LOOSE representations (outputs of
+			// Add/Sub/Neg carry excess bits in their limbs depending on the values)
+			var s1, s2, s3 field.Element
+			s1.Add(a, b)
+			s2.Add(&s1, &s1)
+			s3.Sub(a, b)
+			for _, e := range []*field.Element{&s1, &s2, &s3} {
+				_ = e.ToBytes(out[:])
+				c08sink += e.Equal(a) + e.IsNegative() + e.IsZero()
+				w := *e
+				w.ConditionalNegate(ch)
+				r.Neg(e)
+				r.Invert(e)
+				r.SqrtRatioI(e, a)
+			}
 		}
 	}}
 
